@@ -13,6 +13,19 @@ impl Table {
     ensures tab_sym(*self, name@) is None ==> r is None, tab_sym(*self, name@) matches Some(s) ==> (r matches Some(sym) && *sym == s) { None }
 }
 #[derive(Clone, Copy)] pub struct Span { pub start: u32, pub end: u32 }
+pub struct Token { pub name: Ghost<Seq<char>>, pub hi: u32 }
+impl Token {
+  #[verifier::external_body] pub fn str(&self) -> (r: &str) ensures r@ == self.name@ { "" }
+  #[verifier::external_body] pub fn end(&self) -> (r: u32) ensures r == self.hi { 0 }
+}
+pub struct Expr { pub id: u64 }
+pub struct Let { pub name: Token, pub value: Option<Expr>, pub sp: Span }
+impl Let { #[verifier::external_body] pub fn span(&self) -> (r: Span) ensures r == self.sp { unimplemented!() } }
+/// the instructions an expression compiles to (one value on top of the stack: the Compiler::expr family, compilerd / propcomp units)
+pub uninterp spec fn expr_code(e: Expr) -> Seq<(SymbolicByteCode, u32)>;
+/// state and name slot of a module-level name; the instructions that store the top of the stack in it
+pub uninterp spec fn mod_var(name: Seq<char>) -> (SymbolState, u16);
+pub uninterp spec fn mod_define_code(name: Seq<char>, span: Span) -> Seq<(SymbolicByteCode, u32)>;
 pub struct FunName { }
 impl FunName { #[verifier::external_body] pub fn name(&self) -> (r: &str) { "" } }
 #[verifier::external_body] pub fn verif_fmt() -> (r: &'static str) { "" }
@@ -59,6 +72,15 @@ impl Compiler {
   #[verifier::external_body] pub fn error(&mut self, message: &str, span: Option<Span>)
     ensures final(self).locals == old(self).locals, final(self).local_tables == old(self).local_tables, final(self).scope_depth == old(self).scope_depth,
       final(self).code == old(self).code, final(self).errors@ == old(self).errors@ + 1 { }
+  #[verifier::external_body] pub fn expr(&mut self, expr: &Expr)
+    ensures final(self).locals == old(self).locals, final(self).local_tables == old(self).local_tables, final(self).scope_depth == old(self).scope_depth,
+      final(self).code@ == old(self).code@ + expr_code(*expr) { }
+  #[verifier::external_body] pub fn load_module_variable(&mut self, name: &str) -> (r: (SymbolState, u16))
+    ensures final(self).locals == old(self).locals, final(self).local_tables == old(self).local_tables, final(self).scope_depth == old(self).scope_depth,
+      final(self).code == old(self).code, final(self).errors == old(self).errors, r == mod_var(name@) { unimplemented!() }
+  #[verifier::external_body] pub fn define_module_variable(&mut self, name: &str, span: Span)
+    ensures final(self).locals == old(self).locals, final(self).local_tables == old(self).local_tables, final(self).scope_depth == old(self).scope_depth,
+      final(self).code@ == old(self).code@ + mod_define_code(name@, span) { }
   /// `self.local_tables.last().expect(..)`: the innermost block's table
   #[verifier::external_body] pub fn verif_last_table(&self) -> (r: Table) requires self.local_tables@.len() > 0 ensures r == self.local_tables@.last() { unimplemented!() }
 }
